@@ -286,6 +286,29 @@ fn token_case(index: u64) -> Case {
     }
 }
 
+/// Deadline-order delivery over several hundred probe cycles of one instance: the 8-bit probe number
+/// wraps, and handle_timer must still never return an error.
+pub struct LongOrderedPart;
+impl Part for LongOrderedPart {
+    type Case = Case;
+    fn name(&self) -> &'static str {
+        "deadline-order-across-probe-number-wrap"
+    }
+    fn strategy(&self, t: Tier) -> proptest::strategy::BoxedStrategy<Case> {
+        crate::props::c12::LongPart.strategy(t)
+    }
+    fn cases(&self, tier: Tier) -> u64 {
+        tier.pick(300, 10_000)
+    }
+    fn exec(&self, c: &Case, out: &mut CaseOut) -> Result<(), Fail> {
+        let mut m = Mon::new(true, c.setup.codec, &c.setup.cfg);
+        run_history(c, &mut m, out)
+    }
+    fn max_shrink_iters(&self) -> u32 {
+        200
+    }
+}
+
 pub fn run(ctx: &Ctx, report: &mut Report) -> EvidenceMeta {
     ctx.run_enum(
         "epoch-change-at-every-token-value",
@@ -299,10 +322,11 @@ pub fn run(ctx: &Ctx, report: &mut Report) -> EvidenceMeta {
         true,
     );
     ctx.run_part(&part(true), report);
+    ctx.run_part(&LongOrderedPart, report);
     ctx.run_part(&part(false), report);
     EvidenceMeta {
         level: "exploration",
-        rule: "(0) complete enumeration: for each of the 257 possible numbers k of earlier identity changes (so the 8-bit token takes every value, including the wrap) and each of 5 epoch changes (leave, idle, change_identity, Defunct, Rejoin): become active with probe, indirect-probe, suspicion and all periodic timers pending, change epoch, then deliver every older timer; (1, 2) proptest random single-instance histories in which the harness is a runtime delivering every scheduled timer at most once (never twice, never invented): part 'deadline-order' always delivers the earliest deadline (ties by Timer's Ord), part 'any-order' any outstanding timer; interleaved with datagrams / API calls causing Idle, Active, Defunct, Rejoin, change_identity, reuse_down_identity, for all combinations of periodic tasks and set_config changes (including the ones documented to be refused: enabling a task, changing the probe timing). Oracle after every call: timer token moves exactly with the notification-inferred epoch; active => exactly one ProbeRandomMember and one timer per enabled periodic task outstanding with the current token (<= 1 inert left-over for a task disabled by set_config); not active => no outstanding timer carries the current token; stale timers are Ok(()) with no effect and no state change; deadline order => no error; any order => at most IncompleteProbeCycle and probing resumed. Non-trivial: >= 2 epoch changes followed by a stale timer delivery, or set_config disabling a running task."
+        rule: "(0) complete enumeration: for each of the 257 possible numbers k of earlier identity changes (so the 8-bit token takes every value, including the wrap) and each of 5 epoch changes (leave, idle, change_identity, Defunct, Rejoin): become active with probe, indirect-probe, suspicion and all periodic timers pending, change epoch, then deliver every older timer; (1, 2) proptest random single-instance histories in which the harness is a runtime delivering every scheduled timer at most once (never twice, never invented): part 'deadline-order' always delivers the earliest deadline (ties by Timer's Ord), part 'any-order' any outstanding timer; a third part delivers 260..330 complete probe cycles of one instance in deadline order so that the 8-bit probe number wraps; interleaved with datagrams / API calls causing Idle, Active, Defunct, Rejoin, change_identity, reuse_down_identity, for all combinations of periodic tasks and set_config changes (including the ones documented to be refused: enabling a task, changing the probe timing). Oracle after every call: timer token moves exactly with the notification-inferred epoch; active => exactly one ProbeRandomMember and one timer per enabled periodic task outstanding with the current token (<= 1 inert left-over for a task disabled by set_config); not active => no outstanding timer carries the current token; stale timers are Ok(()) with no effect and no state change; deadline order => no error; any order => at most IncompleteProbeCycle and probing resumed. Non-trivial: >= 2 epoch changes followed by a stale timer delivery, or set_config disabling a running task."
             .into(),
         assumptions: vec![
             "fewer than 256 epoch changes between issue and delivery (histories are <= 140 calls)".into(),
@@ -319,6 +343,7 @@ pub fn replay(part_name: &str, case: &Value) -> Option<Result<(), Fail>> {
             run_history(&c, &mut m, &mut CaseOut::default())
         })()),
         "deadline-order" => Some(replay_with(&part(true), case)),
+        "deadline-order-across-probe-number-wrap" => Some(replay_with(&LongOrderedPart, case)),
         "any-order" => Some(replay_with(&part(false), case)),
         _ => None,
     }
